@@ -118,8 +118,8 @@ impl<T: ?Sized + ToSig<S>, W: ZeroCopy + Word, D: BitFieldSlice<W>, S: Sig, E: S
     }
 }
 
-impl<T: ?Sized + ToSig<S>, W: ZeroCopy + Word, S: Sig, E: ShardEdge<S, 3>>
-    VFunc<T, W, BitFieldVec<W>, S, E>
+impl<T: ?Sized + ToSig<S>, W: ZeroCopy + Word, B: AsRef<[W]>, S: Sig, E: ShardEdge<S, 3>>
+    VFunc<T, W, BitFieldVec<W, B>, S, E>
 {
     /// Returns the value associated with the given signature, or a random value
     /// if the signature is not the signature of a key, using [unaligned
